@@ -298,6 +298,9 @@ func c19Version(cfg *world.Config, v *version, acc *pairAcc, st *c19Stats) {
 			continue
 		}
 		atomic.AddInt64(&st.judged, 1)
+		if (c.kind == "counts" || c.kind == "order" || c.kind == "height") && len(v.c.M) >= 3 && acc.wantSample() {
+			acc.sample(map[string]interface{}{"config": cfg.Name, "version": v.c.String(), "perturbation": c.name, "clauses_that_hold": clauses, "LoadMast_returned": r.String()})
+		}
 		if r.Panic != nil {
 			atomic.AddInt64(&st.panics, 1)
 			acc.add(cfg, "C19", []explore.Finding{{Sig: fmt.Sprintf("C19|%s|%s|panic-instead-of-error|%s", c.kind, clauses[0], report.Norm(fmt.Sprint(r.Panic))),
